@@ -68,7 +68,7 @@ def build_harness():
             leaf = os.path.join(VERIF, "harness", "leaf.c")
             if os.path.exists(leaf):
                 # the static helpers are reached by including their source files; the other files are linked as they are
-                rest = [f for f in libsrc if os.path.basename(f) not in ("libeconf_ext.c", "getfilecontents.c")]
+                rest = [f for f in libsrc if os.path.basename(f) not in ("libeconf_ext.c", "getfilecontents.c", "mergefiles.c")]
                 jobs.append((["gcc"] + CFLAGS + SAN + ["-I" + os.path.join(REPO, "util"), leaf] + rest + ["-o", os.path.join(out, "leaf")], "leaf"))
             tool = os.path.join(REPO, "util", "econftool.c")
             if os.path.exists(tool):
